@@ -257,10 +257,42 @@ pub fn generator_return(
     let obj_ref = obj.borrow();
     match &obj_ref.exotic {
         ExoticObject::BytecodeGenerator(state) => {
-            let is_async = state.borrow().is_async;
-            state.borrow_mut().status = GeneratorStatus::Completed;
-            drop(obj_ref);
-            let result = create_generator_result(interp, value, true);
+            let gen_state = state.clone();
+            let is_async = gen_state.borrow().is_async;
+            drop(obj_ref); // Release borrow before resuming
+
+            let suspended_at_yield = {
+                let state_ref = gen_state.borrow();
+                state_ref.status != GeneratorStatus::Completed && state_ref.started
+            };
+
+            let result = if suspended_at_yield {
+                // A delegated iterator (yield*) is closed first
+                let delegated = gen_state.borrow_mut().delegated_iterator.take();
+                if let Some((iter_obj, _)) = delegated {
+                    let iter_guard = interp.heap.create_guard();
+                    iter_guard.guard(iter_obj.cheap_clone());
+                    let return_key = PropertyKey::String(interp.intern("return"));
+                    let return_method = iter_obj.borrow().get_property(&return_key);
+                    if let Some(JsValue::Object(return_fn)) = return_method {
+                        interp.call_function(
+                            JsValue::Object(return_fn),
+                            JsValue::Object(iter_obj.cheap_clone()),
+                            core::slice::from_ref(&value),
+                        )?;
+                    }
+                }
+
+                // Resume the generator with a return completion at the current yield point:
+                // enclosing finally blocks run (and may yield again) before it completes
+                gen_state.borrow_mut().return_value = Some(value);
+                interp.resume_bytecode_generator(&gen_state)?
+            } else {
+                // Not started or already completed: nothing to unwind
+                gen_state.borrow_mut().status = GeneratorStatus::Completed;
+                create_generator_result(interp, value, true)
+            };
+
             if is_async {
                 wrap_in_fulfilled_promise(interp, result)
             } else {
